@@ -40,6 +40,10 @@ CLAIMED = {
    technique="deterministic simulation: OPRF client/server and prover/verifier nodes whose every message is marshalled, re-parsed and hit by single-component alteration, swap, replacement and degenerate-field faults (incl. an adversarial prover forging with collapsed commitments); history faults on reused finalisation data; simot three-round exchange",
    text="OPRF over 4 suites x 3 modes: with intact delivery the client's outputs equal the server's FullEvaluate (so they do not depend on blinds or batch position) and VerifyFinalize holds, also when finalising twice or sharing a blind object; in verifiable modes any altered evaluated element, proof scalar, public key, info or blinded element makes Finalize fail. zk/dleq (single, batch), zk/dl and zk/qndleq: honest proofs verify; every altered component / statement / context and every false statement with degenerate values (zero challenge or response, identity elements, non-unit statement elements, prover-chosen SecParam) is rejected. simot: the receiver obtains exactly the chosen message and cannot open the other.",
    note="One recorded known finding (Qn-DLEQ prover-supplied SecParam). Alterations are judged at the level of decoded components (ristretto255 scalar decoding is lenient by tested design). RFC 9497 byte vectors are left to the repository's own test."),
+ "C18": dict(engine="netsim", level="exploration", ref="DESIGN.md §3 C18",
+   technique="deterministic simulation: client / signer / verifier nodes with reference verifiers (crypto/rsa, big-exponent RFC 8017 model); blinded messages, blind signatures and signatures cross a faulty transport; split entropy streams fix salt and preparation while the blind varies; entropy errors; reuse of finalisation state",
+   text="Blind, blind-sign, finalise over fixture keys (1024..4096 bits, 8k+1-bit moduli, safe primes) for the four RSABSSA variants and the partially blind variant: the final signature verifies under the library, under crypto/rsa.VerifyPSS and under an RFC 8017 reference with the derived exponent; equal salt and preparation randomness with different blinds give identical signatures; altered / trivial / mis-sized blind signatures make Finalize fail (also after retransmission and after a prior success); the signer refuses inputs of wrong length or not below the modulus; on every delivered (message, signature) pair, corrupted or not, the library verifier agrees with the reference.",
+   note="pssref is validated against crypto/rsa at start-up; the derived exponent follows the draft's DerivePublicKey text."),
 }
 
 NA = {
